@@ -192,10 +192,8 @@ func (c *Change) CheckPairing() error {
 			}
 			continue
 		}
-		if c.Kind == "stmts" && p.class == "stmts" {
-			// the implied leading / trailing elisions of a statement pattern compete here: not modelled
-			return fmt.Errorf("elision %s on the plus side is not positionally paired with its minus elision", p.id)
-		}
+		// (a written elision never pairs with the ones implied around a statement pattern when the '-' side has a
+		// written one in a list of the same type)
 		prev, next := -1, -1
 		for i, m := range minus {
 			if m.class != p.class {
